@@ -48,6 +48,7 @@ def main():
     logger.setLevel(logging.INFO)
 
     eol = '\n' if args.eol else ''
+    files_written = 0
     for fn in args.input_files:
         # a name that exists is that file, whatever glob characters it holds
         for file_in in ([fn] if os.path.isfile(fn) else glob.iglob(fn)):
@@ -78,8 +79,10 @@ def main():
 
             fd_out.seek(0)
             if args.outputfile:
-                with open(args.outputfile, mode='w', encoding='latin-1', newline='') as fd_dest:
+                # the first input creates the file, the following ones are added to it
+                with open(args.outputfile, mode='a' if files_written else 'w', encoding='latin-1', newline='') as fd_dest:
                     fd_dest.write(fd_out.read())
+                files_written += 1
             else:
                 if args.inplace:
                     with open(file_in, mode='w', encoding='latin-1', newline='') as fd_orig:
